@@ -11,7 +11,9 @@ RULE = ("TLC enumerates rational parameter grids of the truncation families 323+
         "get_shape must return exactly that vertex set (or ValueError only when vertices are closer than 1e-4), ValueError "
         "outside the domain; TruncatedTetrahedronFamily is the a = 1 edge; spec/UniformFamilies.tla gives (V,E,F) and face "
         "degrees of the n-gon, prism, antiprism, pyramid, dipyramid families for every n, checked with unit volume/area, origin "
-        "centring, equal edges and regular faces on the implementation's output; distinct = (family, parameters)")
+        "centring, equal edges and regular faces on the implementation's output; spec/Factory.tla states the factory contract "
+        "(the answer for a key is the shape the key defines, whatever was requested before or done to earlier answers) and all its "
+        "Get/Mutate histories of length 4 are replayed against every parametric family; distinct = (family, parameters) / (family, history)")
 
 
 def run(ctx):
@@ -77,6 +79,12 @@ def run(ctx):
         ctx.unclear += st.get("unclear", 0)
         for sig, detail in mism:
             ctx.violation(sig, detail)
+    # the factory contract (spec/Factory.tla): the answer for a key does not depend on earlier requests or on what the client
+    # did to earlier answers
+    from .. import factory_eval
+    PARAMETRIC = ["Family323Plus", "Family423", "Family523", "TruncatedTetrahedronFamily", "RegularNGonFamily", "UniformPrismFamily",
+                  "UniformAntiprismFamily", "UniformPyramidFamily", "UniformDipyramidFamily"]
+    ctx.extra["factory_histories_replayed"] = factory_eval.run(ctx, PARAMETRIC)
     ctx.exhaustive = False
     return ctx.finish(rule=RULE, assumptions=[
         "Family523 (golden-ratio normals) is checked only through its documented corners and domain in this tier (see notes)",
@@ -86,6 +94,9 @@ def run(ctx):
 def replay(rec):
     from ..pool import _init
     _init()
+    if "job" in rec["detail"]:
+        from .. import factory_eval
+        return [f"{s['cls']}.{s['obs']}: {s['msg']}" for s, _ in factory_eval.eval_history(rec["detail"]["job"])]
     case = rec["detail"].get("case")
     if case is None:
         return ["replay of domain-edge probes is not supported; rerun the check"]
